@@ -17,7 +17,11 @@ try:
         meta = json.load(open(os.path.join(d, "meta.json")))
         prop = meta["property"]
         subprocess.run(["rsync", "-a", "--delete", "--exclude", ".git", "/repo/", scratch + "/"], check=True)
-        r = subprocess.run(["patch", "-p1", "-s", "--no-backup-if-mismatch", "-i", os.path.join(d, "patch.diff")], cwd=scratch, capture_output=True, text=True)
+        # a seed whose original patch no longer applies may carry a port of the same change to the current code
+        pf = os.path.join(d, "patch.current.diff")
+        if not os.path.exists(pf):
+            pf = os.path.join(d, "patch.diff")
+        r = subprocess.run(["patch", "-p1", "-s", "--no-backup-if-mismatch", "-i", pf], cwd=scratch, capture_output=True, text=True)
         if r.returncode != 0:
             stale += 1; print(f"stale    {sid:6s} patch no longer applies"); continue
         b = subprocess.run(["go", "build", "./leveldb/..."], cwd=scratch, env=env, capture_output=True, text=True)
